@@ -80,7 +80,7 @@ Definition blind_path (p : list string) : bool :=
   match p with [] => false | k :: _ => negb (String.eqb k "<-") end.
 
 (* expressions of the filter/projection/aggregate grammar: columns of the current row, literals,
-   boolean connectives, comparisons, LIKE, IN (list), BETWEEN, IS, arithmetic, CASE, aggregates —
+   boolean connectives, comparisons, LIKE, IN (list), BETWEEN, IS, arithmetic, CASE, aggregates, value tuples —
    no subquery, no function call, no `<-` *)
 Fixpoint blind_expr {Q} (e : expr Q) : bool :=
   match e with
@@ -93,6 +93,7 @@ Fixpoint blind_expr {Q} (e : expr Q) : bool :=
   | ECase whens els =>
       forallb (fun w => blind_expr (fst w) && blind_expr (snd w)) whens &&
       match els with Some x => blind_expr x | None => true end
+  | ETuple items => forallb blind_expr items
   | EInSub _ _ _ | ESub _ | EExists _ | ECall _ _ _ => false
   end.
 
@@ -169,6 +170,9 @@ Section Hides.
     | ECall _ _ args =>
         (fix go (l : list (expr Q)) : bool :=
            match l with [] => true | x :: r => expr_hides x && go r end) args
+    | ETuple items =>
+        (fix go (l : list (expr Q)) : bool :=
+           match l with [] => true | x :: r => expr_hides x && go r end) items
     end.
 
   Definition opt_hides (o : option (expr Q)) : bool :=
